@@ -568,3 +568,56 @@ func (p *Painter) Form(name string) []string {
 	p.forms[name] = f
 	return f
 }
+
+// OpRunner.processOperation violates R8.10: in text mode only some operators get through to the switch.
+type OpRunner struct {
+	inText bool
+	ctm    [6]float64
+}
+
+type Op struct {
+	Operator string
+	Operands []float64
+}
+
+func (r *OpRunner) processOperation(op Op) error {
+	if r.inText && op.Operator != "ET" && op.Operator != "w" {
+		return nil
+	}
+	switch op.Operator {
+	case "BT":
+		r.inText = true
+	case "ET":
+		r.inText = false
+	case "cm":
+		copy(r.ctm[:], op.Operands)
+	}
+	return nil
+}
+
+func RunOps(ops []Op) [6]float64 {
+	r := &OpRunner{}
+	for _, o := range ops {
+		r.processOperation(o)
+	}
+	return r.ctm
+}
+
+// ResolveRequested violates R10.16: the loop stops once every page was collected, leaving the rest unvalidated.
+func ResolveRequested(requested []int, count int) ([]int, error) {
+	seen := map[int]bool{}
+	var out []int
+	for _, p := range requested {
+		if p < 1 || p > count {
+			return nil, os.ErrInvalid
+		}
+		if !seen[p] {
+			seen[p] = true
+			out = append(out, p-1)
+		}
+		if len(out) == count {
+			break
+		}
+	}
+	return out, nil
+}
